@@ -18,6 +18,8 @@ pub enum Op {
     Read(String),
     WriteBin(String, String),
     ReadBin(String),
+    /// the SAME byte handle written to two paths, one after the other (the first write may fail)
+    WriteBin2(String, String, String),
     Touch(String),
     Mkdir(String),
     Cp(String, String),
@@ -214,7 +216,7 @@ fn resolve(t: &Tree, p: &str) -> Option<String> {
 fn paths_of(op: &Op) -> Vec<String> {
     match op {
         Op::Write(p, _) | Op::Append(p, _) | Op::Read(p) | Op::Touch(p) | Op::Rm(p, _) | Op::Exists(p) | Op::IsFile(p) | Op::IsDir(p) | Op::Size(p) | Op::Mkdir(p) | Op::Rmdir(p) | Op::ReadBin(p) | Op::WriteBin(p, _) => vec![p.clone()],
-        Op::Cp(a, b) | Op::Mv(a, b) => vec![a.clone(), b.clone()],
+        Op::Cp(a, b) | Op::Mv(a, b) | Op::WriteBin2(a, b, _) => vec![a.clone(), b.clone()],
         Op::RmMany(ps, _) => ps.clone(),
         _ => vec![],
     }
@@ -237,6 +239,7 @@ fn with_paths(op: &Op, ps: &[String]) -> Op {
         Op::WriteBin(_, x) => Op::WriteBin(ps[0].clone(), x.clone()),
         Op::Cp(_, _) => Op::Cp(ps[0].clone(), ps[1].clone()),
         Op::Mv(_, _) => Op::Mv(ps[0].clone(), ps[1].clone()),
+        Op::WriteBin2(_, _, x) => Op::WriteBin2(ps[0].clone(), ps[1].clone(), x.clone()),
         Op::RmMany(_, r) => Op::RmMany(ps.to_vec(), *r),
         other => other.clone(),
     }
@@ -429,6 +432,23 @@ fn run_case(case: &Case) -> Verdict {
                     world.op("write_binary_file", &[p.clone(), hs.clone()], &Want::True, &[p.clone(), s("<bytes handle>")]);
                     ensure_parents(&mut t, p);
                     t.insert(p.clone(), Node::File(text.as_bytes().to_vec()));
+                }
+                world.run("release", &[hs]);
+            }
+            Op::WriteBin2(p1, p2, text) => {
+                let h = world.run("string_to_bytes", &[text.clone()]);
+                let hs = h.val().unwrap_or("").to_string();
+                sim::with_core(|c| c.probe("one-byte-handle-written-twice"));
+                for p in [p1, p2] {
+                    let is_blocked = blocked(&t, p) || matches!(t.get(p), Some(Node::Dir));
+                    if is_blocked {
+                        world.op("write_binary_file", &[p.clone(), hs.clone()], &Want::Fail, &[p.clone(), s("<bytes handle>")]);
+                        sim::with_core(|c| *c.fired.entry("F8".to_string()).or_insert(0) += 1);
+                    } else {
+                        world.op("write_binary_file", &[p.clone(), hs.clone()], &Want::True, &[p.clone(), s("<bytes handle>")]);
+                        ensure_parents(&mut t, p);
+                        t.insert(p.clone(), Node::File(text.as_bytes().to_vec()));
+                    }
                 }
                 world.run("release", &[hs]);
             }
@@ -762,7 +782,7 @@ fn run_case(case: &Case) -> Verdict {
 const DIRS: [&str; 6] = ["run", "run/d1", "run/d1/d2", "run/d sp", "run/d\u{e9}", "run/e"];
 // (the last three are the names a careless "write to a temporary sibling, then rename" would collide with)
 const FILES: [&str; 8] = ["f.txt", "g.dat", "h h.txt", "\u{fc}.txt", "k.txt", "f.txt.tmp", "f.txt~", ".f.txt.swp"];
-const TEXTS: [&str; 8] = ["", "hello", "two\nlines\n", "h\u{e9}llo \u{6f22}", "0123456789abcdefghijklmnopqrstuvwxyz", " ", "x", "line\r\n"];
+const TEXTS: [&str; 11] = ["", "hello", "two\nlines\n", "h\u{e9}llo \u{6f22}", "0123456789abcdefghijklmnopqrstuvwxyz", " ", "x", "line\r\n", "\u{feff}starts with a byte order mark", "\u{feff}", "ends without newline\n\n"];
 
 fn gen_dir(rng: &mut Rng) -> String {
     rng.pick(&DIRS).to_string()
@@ -837,6 +857,7 @@ fn gen_op_raw(rng: &mut Rng) -> Op {
         0..=5 => Op::Write(if rng.chance(1, 10) { gen_any(rng) } else { gen_file(rng) }, rng.pick(&TEXTS).to_string()),
         6..=8 => Op::Append(if rng.chance(1, 10) { gen_any(rng) } else { gen_file(rng) }, rng.pick(&TEXTS).to_string()),
         9..=11 => Op::Read(gen_any(rng)),
+        12 if rng.chance(1, 3) => Op::WriteBin2(gen_any(rng), gen_file(rng), rng.pick(&TEXTS).to_string()),
         12 => Op::WriteBin(gen_file(rng), rng.pick(&TEXTS).to_string()),
         13 => Op::ReadBin(gen_any(rng)),
         14 | 15 => Op::Touch(gen_any(rng)),
